@@ -242,47 +242,62 @@ func main() {
 	// 'concurrent map' fatal error, the workload is then restarted with the next seed
 	var buf bytes.Buffer
 	var direct0 string
-	t0 := time.Now()
 	box := time.Duration(in.Dur) * time.Second
 	totalOps := 0
-	for round := 0; *parseOnly == ""; round++ {
-		left := box - time.Since(t0)
-		if left < 3*time.Second && round > 0 {
-			break
+	runRounds := func(which string, box time.Duration, seedOff uint64) {
+		t0 := time.Now()
+		for round := 0; *parseOnly == ""; round++ {
+			left := box - time.Since(t0)
+			if left < 3*time.Second && round > 0 {
+				break
+			}
+			if left < 3*time.Second {
+				left = 3 * time.Second
+			}
+			if left > 20*time.Second {
+				left = 20 * time.Second
+			}
+			secs := int(left / time.Second)
+			var rb bytes.Buffer
+			cmd := exec.Command(bin, "-dur", fmt.Sprint(secs), "-seed", fmt.Sprint(in.Seed+seedOff+uint64(round)*1000003), "-which", which)
+			cmd.Env = append(os.Environ(), "GORACE=halt_on_error=0 exitcode=66")
+			cmd.Stdout = &rb
+			cmd.Stderr = &rb
+			done := make(chan error, 1)
+			if err := cmd.Start(); err != nil {
+				fmt.Fprintln(os.Stderr, "h-race:", err)
+				os.Exit(3)
+			}
+			go func() { done <- cmd.Wait() }()
+			select {
+			case <-done:
+			case <-time.After(left + 40*time.Second):
+				cmd.Process.Kill()
+				direct0 = "the workload did not finish within its time box + 40 s (killed)"
+			}
+			buf.Write(rb.Bytes())
+			if m := regexp.MustCompile(`WORKLOAD-OPS (\d+)`).FindStringSubmatch(rb.String()); m != nil {
+				var n int
+				fmt.Sscan(m[1], &n)
+				totalOps += n
+			}
+			if direct0 != "" || (round == 0 && strings.Contains(rb.String(), "workload:") && !strings.Contains(rb.String(), "DATA RACE")) {
+				break
+			}
 		}
-		if left < 3*time.Second {
-			left = 3 * time.Second
+	}
+	if in.Which == "all" {
+		// the NIC manager workload runs in processes of its own (a tenth of the box, at least 3 s)
+		nicBox := box / 10
+		if nicBox < 3*time.Second {
+			nicBox = 3 * time.Second
 		}
-		if left > 20*time.Second {
-			left = 20 * time.Second
+		runRounds("all", box-nicBox, 0)
+		if direct0 == "" {
+			runRounds("nic", nicBox, 777)
 		}
-		secs := int(left / time.Second)
-		var rb bytes.Buffer
-		cmd := exec.Command(bin, "-dur", fmt.Sprint(secs), "-seed", fmt.Sprint(in.Seed+uint64(round)*1000003), "-which", in.Which)
-		cmd.Env = append(os.Environ(), "GORACE=halt_on_error=0 exitcode=66")
-		cmd.Stdout = &rb
-		cmd.Stderr = &rb
-		done := make(chan error, 1)
-		if err := cmd.Start(); err != nil {
-			fmt.Fprintln(os.Stderr, "h-race:", err)
-			os.Exit(3)
-		}
-		go func() { done <- cmd.Wait() }()
-		select {
-		case <-done:
-		case <-time.After(left + 40*time.Second):
-			cmd.Process.Kill()
-			direct0 = "the workload did not finish within its time box + 40 s (killed)"
-		}
-		buf.Write(rb.Bytes())
-		if m := regexp.MustCompile(`WORKLOAD-OPS (\d+)`).FindStringSubmatch(rb.String()); m != nil {
-			var n int
-			fmt.Sscan(m[1], &n)
-			totalOps += n
-		}
-		if direct0 != "" || (round == 0 && strings.Contains(rb.String(), "workload:") && !strings.Contains(rb.String(), "DATA RACE")) {
-			break
-		}
+	} else {
+		runRounds(in.Which, box, 0)
 	}
 	log := buf.String()
 	if *parseOnly != "" {
